@@ -5,6 +5,7 @@ package ambient
 
 import (
 	securityclient "istio.io/client-go/pkg/apis/security/v1"
+	"istio.io/istio/pilot/pkg/model"
 	"istio.io/istio/pkg/kube/krt"
 	"istio.io/istio/pkg/workloadapi/security"
 )
@@ -33,4 +34,13 @@ func VerifFetchPeerAuthentications(ctx krt.HandlerContext, idx krt.Index[string,
 	meshCfg *MeshConfig, ns string, labels map[string]string,
 ) []*securityclient.PeerAuthentication {
 	return fetchPeerAuthentications(ctx, idx, meshCfg, ns, labels)
+}
+
+// VerifBuildWorkloadPolicies exposes buildWorkloadPolicies (the policy keys attached to a workload:
+// matching AuthorizationPolicy-derived policies plus the PeerAuthentication-derived keys).
+func VerifBuildWorkloadPolicies(ctx krt.HandlerContext, authorizationPolicies krt.Collection[model.WorkloadAuthorization],
+	peerAuthsByNs krt.Index[string, *securityclient.PeerAuthentication], meshCfg *MeshConfig,
+	workloadLabels map[string]string, workloadNamespace string,
+) []string {
+	return buildWorkloadPolicies(ctx, authorizationPolicies, peerAuthsByNs, meshCfg, workloadLabels, workloadNamespace)
 }
